@@ -135,6 +135,20 @@ class Mon:
 NAMES = ['div', 'a', 'ul', 'li', 'x-y', 'ns:t', 'p', 'h1', 'span', 'Foo']
 
 
+def rand_text(rng, depth=0):
+    "text-node content: anything but unbalanced braces - brackets, operators and nested {...} pairs in any order"
+    s = ''
+    for _ in range(rng.randint(1, 6)):
+        k = rng.random()
+        if k < 0.3:
+            s += rng.choice(['a', 'call', 'x y', ' ', 'n1', '$', '${1}', '${2:d}'])
+        elif k < 0.6:
+            s += rng.choice('[]()[]()<>+=.,;:*^#!/')
+        elif depth < 3:
+            s += '{' + rand_text(rng, depth + 1) + '}'
+    return s
+
+
 def rand_elem(rng, d2_pattern=None):
     s = rng.choice(NAMES + [''])
     for _ in range(rng.randint(0, 2)):
@@ -154,7 +168,9 @@ def rand_elem(rng, d2_pattern=None):
             s += '[%s={%s}]' % (rng.choice(['e', 'on']), rng.choice(['x', 'f(1)', 'a.b']))
     if not s:
         s = '.c'
-    if rng.random() < 0.2:
+    if rng.random() < 0.12:
+        s += '{%s}' % rand_text(rng)
+    elif rng.random() < 0.2:
         s += '{%s}' % rng.choice(['text', 'a b', 'x>y', 'a]b', '(x', '$#', 'q=r', "it's", '[1]', 'a<b', 'Hello ${1}', 'a {b} c', 'item ${1:name} x',
                                   '{x}', 'x {y {z}} w', 'f, ${2:g}, h', '${0}'])
     if rng.random() < 0.2:
@@ -233,6 +249,8 @@ def run_shard(desc, ctx):
             for _ in range(3):
                 left = rng.choice(LEFTS)
                 prefix = rng.choice(['', '', '', '<', '%%', 'emm;'])
+                if prefix and prefix in A:
+                    prefix = ''         # documented assumption: the prefix does not occur inside A ("nearest prefix" is the contract)
                 look = rng.random() < 0.7
                 right = rng.choice(RIGHTS if look else RIGHTS + RIGHTS_NOLOOK)
                 opt = {} if look else {'lookAhead': False}
